@@ -20,7 +20,7 @@ EXHAUSTIVE = True
 SHARDS = {"quick": 8, "thorough": 16}
 DEADLINE = {"quick": 50, "thorough": 420}
 REQUIRED = {"layout:calls": 2000, "layout:class:plain": 100, "layout:class:one-child": 500, "layout:repeat-compared": 500,
-            "layout:mirror-compared": 500, "inv:y": 1000, "inv:bounds": 1000, "layout:subtree-with-parent": 200, "layout:extreme-units": 10, "layout:default-units-after-explicit-ones": 200, "layout:measure-then-edit-then-layout": 200, "layout:detached-subtree": 200, "layout:ids:same": 100, "layout:ids:eq-by-value": 100, "layout:ids:stale-parents": 100, "layout:ids:pool3": 100, "layout:ids:clone": 100, "inv:centre": 500, "inv:sep": 500}
+            "layout:mirror-compared": 500, "inv:y": 1000, "inv:bounds": 1000, "layout:subtree-with-parent": 200, "layout:extreme-units": 10, "layout:default-units-after-explicit-ones": 200, "layout:measure-then-edit-then-layout": 200, "layout:two-step-measure-transform": 200, "layout:detached-subtree": 200, "layout:ids:same": 100, "layout:ids:eq-by-value": 100, "layout:ids:stale-parents": 100, "layout:ids:pool3": 100, "layout:ids:clone": 100, "inv:centre": 500, "inv:sep": 500}
 EPS = 1e-9
 
 
@@ -98,12 +98,20 @@ def attach_layout(prop="C18"):
     from mathy_core.layout import TreeLayout
 
     def post(snap, a, k, res, exc):
-        rec = core.REC
         root = a[1] if len(a) > 1 else k.get("node")
         ux = a[2] if len(a) > 2 else k.get("unit_x_multiplier", 1.0)
         uy = a[3] if len(a) > 3 else k.get("unit_y_multiplier", 1.0)
         if root is None:
             return
+        decide_layout(prop, root, ux, uy, res, exc)
+
+    contracts.attach(TreeLayout, "layout", post=post)
+
+
+def decide_layout(prop, root, ux, uy, res, exc):
+    """one finished layout (through layout(), or through its two public halves measure() + transform())"""
+    if True:
+        rec = core.REC
         rec.ev()
         rec.arm("layout:calls")
         shp = W9.shape_str(W9.shape_of(root))
@@ -122,8 +130,6 @@ def attach_layout(prop="C18"):
                           {"shape": shp, "ux": ux, "uy": uy, "class": cls, "ids": IDS["now"], "summary": f"layout of shape {shp[:80]} (units {ux},{uy}; {cls}; ids {IDS['now']}): {msg}"})
         if not fails and W9.count(W9.shape_of(root)) >= 3:
             rec.nontrivial(("layout", shp, ux, uy))
-
-    contracts.attach(TreeLayout, "layout", post=post)
 
 
 def coords(root):
@@ -250,6 +256,30 @@ def drive_shape(rec, s, units, fac=None, ids="fresh"):
                     _SHARED["obj"].layout(t, ux, uy)
                 except Exception:
                     continue
+        if _SHARED["n"] % 4 == 3:
+            # layout() is measure() followed by transform(): both halves are public (measure returns the
+            # layout object for chaining), and calling them one after the other is the same job
+            IDS["now"] = ids + "+two-step"
+            for form in range(3):
+                t2 = W9.build(s, fac)
+                if ids == "clone":
+                    t2 = t2.clone()
+                lay = _SHARED["obj"] if form else _TL()     # (not through TreeLayout(): the phase counter stays put)
+                m = exc2 = None
+                try:
+                    if form == 0:
+                        m = lay.measure(t2).transform(t2, 0, ux, uy)
+                    elif form == 1:
+                        lay.measure(node=t2)
+                        m = lay.transform(node=t2, x=0, unit_x_multiplier=ux, unit_y_multiplier=uy)
+                    else:
+                        lay.measure(t2, 0)
+                        m = lay.transform(t2, 0, ux, unit_y_multiplier=uy)
+                except Exception as e:
+                    exc2 = e
+                rec.arm("layout:two-step-measure-transform")
+                decide_layout("C18", t2, ux, uy, m, exc2)
+            IDS["now"] = ids
         if _SHARED["n"] % 5 == 0:
             # the measurement handed out is the caller's: scribbled on before the next layout
             try:
